@@ -11,6 +11,7 @@ import (
 	"net/http"
 	"net/http/httptest"
 	"net/url"
+	"reflect"
 	"regexp"
 	"strconv"
 	"strings"
@@ -165,7 +166,7 @@ func scenarioC19Getter(r *Run) {
 				r.Fail("wrong-status", "GET %s never completed", q.URL)
 				return
 			}
-			if why, cls := judgeGet(q, useQuery); why != "" {
+			if why, cls := judgeGet(q, useQuery, r.Sim.AutoAdvances > 0); why != "" {
 				r.Fail(cls, "GET %s: %s; status %d body %q", q.URL, why, q.Status, q.Body)
 				return
 			}
@@ -185,7 +186,7 @@ func scenarioC19Getter(r *Run) {
 	}
 }
 
-func judgeGet(q *getReq, useQuery bool) (why, cls string) {
+func judgeGet(q *getReq, useQuery bool, autoAdvanced bool) (why, cls string) {
 	// what the documented parser makes of the URL (run directly, as a pure function)
 	var method string
 	var params any
@@ -262,7 +263,7 @@ func judgeGet(q *getReq, useQuery bool) (why, cls string) {
 		if params == nil {
 			got = []byte("null")
 		}
-		if compactJSON(string(rbits)) != compactJSON(string(got)) {
+		if !sameJSONValue(string(rbits), string(got)) && !(isEmptyParams(string(rbits)) && isEmptyParams(string(got))) {
 			return fmt.Sprintf("the parser produced parameters %s, the documented typing rules give %s", got, rbits), "wrong-typing"
 		}
 	}
@@ -272,7 +273,7 @@ func judgeGet(q *getReq, useQuery bool) (why, cls string) {
 		if params == nil {
 			want = "null"
 		}
-		if q.Status != 200 || compactJSON(q.Body) != compactJSON(want) {
+		if q.Status != 200 || !(sameJSONValue(q.Body, want) || (isEmptyParams(q.Body) && isEmptyParams(want))) {
 			return fmt.Sprintf("want 200 with the parameters %s echoed", want), "wrong-status"
 		}
 	case strings.HasPrefix(method, "fail"):
@@ -288,6 +289,10 @@ func judgeGet(q *getReq, useQuery bool) (why, cls string) {
 			if q.Status != 500 && !(q.Status == 200 && compactJSON(q.Body) == fmt.Sprintf(`{"tag":%q}`, q.Tag)) {
 				return "the request's context ended while its handler was held: want 500, or 200 with the handler's own result", "wrong-status"
 			}
+		} else if q.Status == 500 && autoAdvanced {
+			// the handler was held for as long as the workload pleased and a timer
+			// of the library expired meanwhile: a call that timed out is "any
+			// other failure" (C19 does not forbid a default timeout)
 		} else if q.Status != 200 || compactJSON(q.Body) != fmt.Sprintf(`{"tag":%q}`, q.Tag) {
 			return "want 200 with the handler's result", "wrong-status"
 		}
@@ -372,7 +377,8 @@ func (h *simHTTP) Do(req *http.Request) (*http.Response, error) {
 			body.failAt = rec.Body.Len() / 2
 		}
 	}
-	return &http.Response{StatusCode: code, Status: fmt.Sprintf("%d %s", code, http.StatusText(code)), Header: rec.Header(), Body: body}, nil
+	return &http.Response{StatusCode: code, Status: fmt.Sprintf("%d %s", code, http.StatusText(code)), Header: rec.Header(), Body: body,
+		ContentLength: int64(rec.Body.Len()), Request: req, Proto: "HTTP/1.1", ProtoMajor: 1, ProtoMinor: 1}, nil
 }
 
 func scenarioC19Channel(r *Run) {
@@ -648,4 +654,20 @@ func refQueryParams(rawURL string, useQuery bool) (any, string) {
 		}
 	}
 	return out, "value"
+}
+
+// sameJSONValue compares two JSON texts as values (numbers by value: -0 and 0,
+// 1 and 1.0 are the same number).
+func sameJSONValue(a, b string) bool {
+	var va, vb any
+	if json.Unmarshal([]byte(a), &va) != nil || json.Unmarshal([]byte(b), &vb) != nil {
+		return a == b
+	}
+	return reflect.DeepEqual(va, vb)
+}
+
+// isEmptyParams: no parameters at all, written as null or as an empty object.
+func isEmptyParams(s string) bool {
+	s = strings.TrimSpace(s)
+	return s == "null" || s == "{}"
 }
